@@ -84,26 +84,23 @@ PRE_REF = {'Mass': 'kg', 'Length': 'm', 'Duration': 's', 'Area': 'm²',
            'DataVolume': 'B', 'DataThroughput': 'B/s', 'Temperature': None}
 
 # ---------------------------------------------------------------- findings
-# Real-code deviations from the property text.  Cases of these kinds are only
-# generated once /verif/known_findings.json lists the key (status "known");
-# they are then reported as KNOWN-FINDING by the runner (classify below).
+# Real-code deviation from the property text, listed in
+# /verif/known_findings.json under this key (status "known"): deterministic
+# witnesses are generated in every run and reported as KNOWN-FINDING by the
+# runner (classify below); the model agrees with the code on all of them.
 KEY_EDGE = 'C18-edge-blank-symbol'
-KEY_ZERODEN = 'C18-zero-denominator'
-EDGE_SYMBOLS = [' x', 'y ', '\tq', 'q\n', ' z', ' ', '　w', ' a b ']
+EDGE_SYMBOLS = [' x', 'y ', '\tq', 'q\n', '\xa0z', ' ', '\u3000w', ' a b ']
 KNOWN_CANDIDATES = {
     KEY_EDGE: [
-        # U = new type with reference unit 'xr'; u = U.new_unit(' x', ...);
         # Quantity(str(1*u)) -> QuantityError "Unknown symbol 'x'."
         {'script': "X = QuantityMeta('X', (Quantity,), {}, ref_unit_symbol='xr'); "
                    "u = X.new_unit(' x', 'lead', Decimal(2)*X.ref_unit); "
                    "Quantity(str(1*u))  # QuantityError; X(str(1*u)) as well"},
     ],
-    KEY_ZERODEN: [
-        {'script': "from quantity.predefined import *; Quantity('1/0 m')"
-                   "  # ZeroDivisionError, not QuantityError"},
-    ],
 }
-ZERODEN_TEXTS = ['1/0', '-3/0', '0/0', '1/00']
+# '1/0 m' raised ZeroDivisionError until repo commit 046398b; ordinary cases
+# now (expected: QuantityError), also in corpus/C18/zero_denominator.json
+ZERODEN_TEXTS = ['1/0', '-3/0', '0/0', '1/00', '+1/0']
 
 
 def _edge_world():
@@ -120,9 +117,12 @@ ODD_SYMBOLS = ['a b', 'a  b', 'a b c', '1', '1/2', '-3', '1e3', 'µ', '日本', 
                'kg·m²/s³', 'Ω', 'mm m', '/', '.', '0']
 
 
-def odd_world(quantum=None):
+def odd_world(quantum=None, syms=None):
+    """user types with odd symbols (a subset keeps the declaration cheap)"""
     units = []
     for i, s in enumerate(ODD_SYMBOLS):
+        if syms is not None and s not in syms:
+            continue
         if quantum is None:
             f = F(i + 2, (i % 4) + 1)
             kind = 'frac'
@@ -145,8 +145,7 @@ def _coq_dir(views):
 
 
 # fixed worlds: their directories are defined once per case file (header)
-FIXED_WORLDS = [('pd_dir', PRE), ('od_dir0', odd_world()), ('od_dir1', odd_world('1/8')),
-                ('od_dir2', odd_world('1/3'))]
+FIXED_WORLDS = [('pd_dir', PRE)]
 COQ_HEADER = (
     "From QV Require Import Model.Num Model.Rounding Model.Quantity Model.Text "
     "Corr.Common Corr.Obs Corr.QtyCorr Corr.TextCorr.\n"
@@ -260,19 +259,18 @@ def _callers(views, usym, rng):
 
 def gen_cases(rng, tier):
     thorough = tier == 'thorough'
-    known = core.known_keys(PID)
     cases = [{'kind': 'spaces'}]
     dm0 = 'MHEVEN'
     pre_views = _PRE_VIEWS
     pre_syms = list(pre_views.units)
-    worlds = [w for _, w in FIXED_WORLDS]
+    quanta = [None, '1/8', '1/3']
 
     def pick_world():
         r = rng.random()
         if r < 0.45:
             return PRE
         if r < 0.75:
-            return rng.choice(worlds[1:])
+            return odd_world(rng.choice(quanta), rng.sample(ODD_SYMBOLS, 4))
         return dict(W.random_world(rng, n_classes=2), predefined=True)
 
     def pick_num():
@@ -300,13 +298,13 @@ def gen_cases(rng, tier):
         for sym in rng.sample(pre_syms, 6 if thorough else 2):
             cases.append(rt(PRE, sym, rng.choice(['generic', 'own']), n))
     # odd symbols, quantized or not
-    for w in worlds[1:]:
-        views = W.Views(w)
-        for sym in views.units:
+    for qn in quanta:
+        for sym in list(W.Views(odd_world(qn)).units):
             if sym in _PRE_VIEWS.units:
                 continue
             for how in ('generic', 'own'):
                 for _ in range(3 if thorough else 1):
+                    w = odd_world(qn, [sym] + rng.sample(ODD_SYMBOLS, 2))
                     cases.append(rt(w, sym, how, pick_num()))
     # other class / explicit unit
     for _ in range(1200 if thorough else 120):
@@ -421,16 +419,19 @@ def gen_cases(rng, tier):
     for s in ['', ' ', 'ok', None, 5, 'm']:
         cases.append({'kind': 'decl', 'world': PRE, 'sym': s})
 
-    # --- known findings (generated only when listed in known_findings.json)
-    if KEY_EDGE in known:
-        ew = _edge_world()
-        for s in EDGE_SYMBOLS:
-            for how in ('generic', 'own'):
-                cases.append(rt(ew, s, how, pick_num()))
-    if KEY_ZERODEN in known:
-        for t in ZERODEN_TEXTS:
-            cases.append(txt(PRE, None, t, 'm'))
-            cases.append(txt(PRE, 'Length', t, None))
+    # --- zero denominators (regression of repo commit 046398b)
+    for t in ZERODEN_TEXTS:
+        cases.append(txt(PRE, None, t, 'm'))
+        cases.append(txt(PRE, 'Length', t, None))
+        cases.append(txt(PRE, None, t, 'km', unit='m'))
+
+    # --- known finding C18-edge-blank-symbol: deterministic witnesses first
+    # (fixed amount and mode, independent of the seed), then seeded ones
+    ew = _edge_world()
+    for s in EDGE_SYMBOLS:
+        for how in ('generic', 'own'):
+            cases.append(rt(ew, s, how, ['int', '1/1'], dm=dm0))
+            cases.append(rt(ew, s, how, pick_num()))
     return cases
 
 
@@ -784,9 +785,6 @@ def classify(case, res, msg):
         return None
     if case.get('kind') == 'rt' and case['u'] != case['u'].strip() and 'round-trip' in msg:
         return KEY_EDGE
-    if case.get('kind') == 'parse' and case.get('parts') and \
-            re.match(r'^[+-]?[0-9]+/0+$', case['parts']['num'] or ''):
-        return KEY_ZERODEN
     return None
 
 
@@ -796,7 +794,12 @@ def labels(case, r):
     out = ['kind=' + k]
     if k in ('spaces', 'decl'):
         return out
-    out.append('world=' + ('predefined' if case['world'].get('predefined') else 'user'))
+    cl = case['world'].get('classes')
+    out.append('world=' + ('predefined' if not cl else
+                           'predefined+odd-symbols' if cl[0]['name'] in ('Odd', 'Edge')
+                           else 'predefined+random-user-types'))
+    if cl and any(c.get('quantum') for c in cl):
+        out.append('world=has-quantized-user-type')
     ob = r.get('res')
     if ob:
         out.append('result=' + (ob['e'] if ob['k'] == 'err' else ob['k']))
